@@ -234,7 +234,7 @@ pub fn ref_decode(bits: u32, entry: Entry, b: &[u8]) -> Result<Vec<BigUint>, Bad
                 }
                 (1 + ll, len)
             };
-            if b.len() < off + len {
+            if len > b.len() || b.len() < off + len {
                 return Err(Bad::Truncated);
             }
             let body = &b[off..off + len];
